@@ -9,6 +9,15 @@ checks, na = [], []
 for p in props:
     pid = p["id"]
     c = CLAIMS.get(pid)
+    modp = os.path.join(HERE, "analysis", "rules", pid + ".py")
+    if not c and os.path.exists(modp):
+        import ast, re
+        src = open(modp).read()
+        doc = ast.get_docstring(ast.parse(src)) or ""
+        mod = importlib.import_module("rules." + pid)
+        c = {"level": mod.META["level"], "text": re.sub(r"\s+", " ", doc.split("\n", 1)[1] if "\n" in doc else doc).strip(),
+             "note": "Trusted: rustc MIR + callee resolution; call-graph over-approximation rules; dependency summaries (analysis/panics.py SUMMARIES); reviewed audit tables under spec/. " + mod.META.get("explanation", ""),
+             "technique": "static analysis: " + mod.META["rule"]}
     if not c or c.get("not_applicable"):
         na.append({"property_id": pid, "reason": (c or {}).get("not_applicable", "no static rule built yet for this property")})
         continue
